@@ -225,7 +225,7 @@ def verify_bundle(name, workdir, rlimit=30, canary=True):
                 ob.kind = 'unknown'
                 ob.detail = '\n'.join(b.text for b in mine)[:3000]
             if canary:
-                ci = cbd.get(fn)
+                ci = cbd.get(fn + '__canary') or cbd.get(fn) if '__case_' not in fn else cbd.get(fn)
                 c0, c1 = cranges.get(fn, (l0, l1))
                 cfail = [b for b in cblocks if any(c0 <= l <= c1 for l in b.lines)]
                 # the canary (ensures false) must NOT verify
